@@ -1,5 +1,7 @@
 package main
 
+import "strings"
+
 func libSuite(prop string) Suite {
 	return Suite{
 		Name:   "lib",
@@ -38,8 +40,53 @@ func codecSuite() Suite {
 	}
 }
 
+// hostile input: the property is "no panic, no hang, no disproportionate allocation";
+// any other difference from the model is a model-fidelity matter.
+func hostileClassify(op Op, impl, model string) bool {
+	for _, bad := range []string{"panic", "crash", "timeout", "alloc!"} {
+		if strings.HasPrefix(impl, bad) {
+			return true
+		}
+	}
+	return false
+}
+
+func hostileCodecSuite() Suite {
+	return Suite{
+		Name:     "hostile-codec",
+		MkExec:   func() Executor { return NewChildExec("codec") },
+		Canon:    canonCodec,
+		Classify: hostileClassify,
+		Gen:      func(r *Rng, i int, tier string) []Op { return genHostileCodec(r) },
+		Cases: func(tier string) int {
+			if tier == "thorough" {
+				return 40000
+			}
+			return 2500
+		},
+	}
+}
+
+func hostileFileSuite() Suite {
+	return Suite{
+		Name:     "hostile-file",
+		MkExec:   func() Executor { return NewChildExec("lib") },
+		Canon:    canonObs,
+		Classify: hostileClassify,
+		Gen:      func(r *Rng, i int, tier string) []Op { return genHostileFile(r) },
+		Cases: func(tier string) int {
+			if tier == "thorough" {
+				return 20000
+			}
+			return 1200
+		},
+	}
+}
+
 func suitesFor(prop string) []Suite {
 	switch prop {
+	case "C15":
+		return []Suite{hostileCodecSuite(), hostileFileSuite()}
 	case "C14":
 		return []Suite{codecSuite()}
 	case "C01", "C02", "C03", "C04", "C05", "C06":
@@ -48,4 +95,4 @@ func suitesFor(prop string) []Suite {
 	return nil
 }
 
-func runChild(role string, args []string) {}
+func runChildOther(role string, args []string) bool { return false }
